@@ -108,6 +108,18 @@ def alphabet():
     def bal(c, tok):
         return c.broker.get_token_balance(tok)
 
+    # range bounds that lie exactly HALF WAY between two usable ticks (the market snaps them): whichever way a tie goes, it must go the same way in the mirror
+    for name, (dl, dh) in (("half-way", (5, -5)), ("half-way-odd", (15, -15)), ("off-grid", (3, -3))):
+        def add_snapped(c, dl=dl, dh=dh):
+            mk = m(c)
+            lo, hi = c.rng["in"]
+            lo, hi = (lo + dl, hi + dh) if c.orient == "q0" else (lo - dh, hi - dl)
+            ret = mk.add_liquidity_by_tick(lo, hi, bal(c, mk.base_token) / 3, bal(c, mk.quote_token) / 3)
+            p = ret[0]
+            width = p.upper_tick - p.lower_tick
+            centre = (p.upper_tick + p.lower_tick) if c.orient == "q0" else -(p.upper_tick + p.lower_tick)
+            return (ret[1], ret[2], ret[3], width, centre)
+        ops[f"add_snapped[{name}]"] = (add_snapped, EXACT, name != "half-way")
     for r in RANGES0:
         for cb, cq in (("third", "third"), ("all", "all"), ("third", "0"), ("0", "third"), ("over", "third")):
             def add(c, r=r, cb=cb, cq=cq):
